@@ -131,6 +131,8 @@ def make_cond(p):
     from . import oracle
 
     kind, ctor = p["kind"], p.get("ctor", "Sigma")
+    if p.get("past_Sigma0") is not None and kind != "nn":
+        return _cond_with_past(p), {}
     Sig = N(p["Sigma"])
     kw = {}
     if ctor == "Sigma":
@@ -158,6 +160,26 @@ def make_cond(p):
         )
         return c, {"u": J(p["u"])}
     raise ValueError(kind)
+
+
+def _cond_with_past(p):
+    """See gen._cond_past: build with past_Sigma0 (same constructor route), query, then update_Sigma to the target."""
+    p0 = {k: v for k, v in p.items() if k != "past_Sigma0"}
+    p0["Sigma"] = p["past_Sigma0"]
+    c, _ = make_cond(p0)
+    Dx, Dy = int(p["Dx"]), int(p["Dy"])
+    probe = pdf.GaussianPDF(Sigma=J(0.5 * np.eye(Dx)[None]), mu=J(0.1 * np.ones((1, Dx))))
+    probe_q = pdf.GaussianPDF(Sigma=J(0.5 * np.eye(Dx + Dy)[None]), mu=J(0.1 * np.ones((1, Dx + Dy))))
+    for warmer in (lambda: c.affine_joint_transformation(probe), lambda: c.affine_conditional_transformation(probe),
+                   lambda: c.affine_marginal_transformation(probe), lambda: c.integrate_log_conditional(probe_q),
+                   lambda: c.integrate_log_conditional_y(probe, y=J(np.zeros((1, Dy)))), lambda: c.set_y(J(np.zeros((int(c.R), Dy)))),
+                   lambda: c.conditional_entropy(probe), lambda: c.mutual_information(probe), lambda: c(J(np.zeros((1, Dx))))):
+        try:
+            warmer()  # read-only queries; a class that does not offer one of them (or documents R=1 for it) simply skips it
+        except Exception:
+            pass
+    c.update_Sigma(J(p["Sigma"]))
+    return c
 
 
 # ----------------------------------------------------------------------------- approximate conditionals
@@ -219,10 +241,33 @@ def het_link(kind, h):
 
 
 # ----------------------------------------------------------------------------- densities that have a past
-def density_with_past(fails, kind, params, upd):
+def feature_with_past(fails, p, past):
+    """Build an LRBF / LSEM conditional; if `past` is given ({"Sigma0": noise covariance the object is first built with})
+    the object is built with Sigma0 through the same constructor route, queried (log-conditional integrals and moment
+    matching against a probe density, which fills whatever the object memoises), and then brought to the target noise
+    covariance with update_Sigma.  Returns the object (judged afterwards exactly like a freshly built one) or None."""
+    from .compare import lib
+
+    if not past:
+        ok, c = lib(fails, "construct_feature", make_feature, p)
+        return c if ok else None
+    p0 = dict(p, Sigma=past["Sigma0"])
+    ok, c = lib(fails, "construct_feature", make_feature, p0)
+    if not ok:
+        return None
+    Dx, Dy = int(p["Dx"]), int(p["Dy"])
+    probe = pdf.GaussianPDF(Sigma=J(0.3 * np.eye(Dx)[None]), mu=J(0.2 * np.ones((1, Dx))))
+    lib(fails, "past.integrate_log_conditional_y", lambda: c.integrate_log_conditional_y(probe, y=J(np.zeros((1, Dy)))))
+    lib(fails, "past.affine_joint_transformation", lambda: c.affine_joint_transformation(probe))
+    ok, _ = lib(fails, "past.update_Sigma", lambda: c.update_Sigma(J(p["Sigma"])))
+    return c if ok else None
+
+
+def density_with_past(fails, kind, params, upd, warm=None):
     """Build a density; if `upd` is given ({"idx": [...], "p": params of len(idx) components}) the density is first
-    queried (sample, marginal, integral), then updated in place.  Returns (object, mu, Sigma) with the CURRENT numpy
-    parameters, or (None, None, None) if the library raised (failure appended)."""
+    queried (sample, marginal, integral; and handed to `warm`, e.g. a conditional's transformations), then updated in
+    place.  Returns (object, mu, Sigma) with the CURRENT numpy parameters, or (None, None, None) if the library raised
+    (failure appended)."""
     from .compare import lib
 
     mu, Sig = N(params["mu"]).copy(), N(params["Sigma"]).copy()
@@ -234,6 +279,8 @@ def density_with_past(fails, kind, params, upd):
         lib(fails, "past.sample", lambda: p.sample(jax.random.PRNGKey(5), 2))
         lib(fails, "past.get_marginal", lambda: p.get_marginal(jnp.array([D - 1])))
         lib(fails, "past.integrate", lambda: p.integrate("x"))
+        if warm is not None:
+            lib(fails, "past.warm", lambda: warm(p))
         ok, d = lib(fails, "past.construct_update", make_measure, kind, upd["p"])
         if ok:
             ok, _ = lib(fails, "past.update", lambda: p.update(jnp.array(upd["idx"]), d))
